@@ -3258,7 +3258,11 @@ func (er *EVPNIPMSIRoute) DecodeFromBytes(data []byte) error {
 }
 
 func (er *EVPNIPMSIRoute) Serialize() ([]byte, error) {
-	buf := make([]byte, 20)
+	// RD(8) + ETag(4); the 8-octet extended community is appended below
+	buf := make([]byte, 12)
+	if er.EC == nil {
+		return nil, errors.New("I-PMSI route without extended community")
+	}
 
 	if er.RD != nil {
 		tbuf, err := er.RD.Serialize()
@@ -3294,7 +3298,7 @@ func (er *EVPNIPMSIRoute) MarshalJSON() ([]byte, error) {
 	}{
 		RD:   er.RD,
 		ETag: er.ETag,
-		EC:   er.EC.String(),
+		EC:   fmt.Sprint(er.EC),
 	})
 }
 
@@ -3331,6 +3335,8 @@ func getEVPNRouteType(t uint8) (EVPNRouteTypeInterface, error) {
 		return &EVPNEthernetSegmentRoute{}, nil
 	case EVPN_IP_PREFIX:
 		return &EVPNIPPrefixRoute{}, nil
+	case EVPN_I_PMSI:
+		return &EVPNIPMSIRoute{}, nil
 	}
 	return nil, NewMessageError(BGP_ERROR_UPDATE_MESSAGE_ERROR, BGP_ERROR_SUB_MALFORMED_ATTRIBUTE_LIST, nil, fmt.Sprintf("Unknown EVPN Route type: %d", t))
 }
